@@ -135,7 +135,24 @@ func newIndexUsing(path string, mapping mapping.IndexMapping, indexType string, 
 	if err != nil {
 		return nil, err
 	}
-	err = rv.i.SetInternal(util.MappingInternalKey, mappingBytes)
+	unsafeBatch, _ := kvconfig["unsafe_batch"].(bool)
+	if unsafeBatch && path != "" && rv.meta.IndexType == scorch.Name {
+		// a disk based scorch index in unsafe_batch mode acknowledges
+		// a batch before it is persisted; without the mapping on disk
+		// the index cannot be opened again, so wait until it is there
+		persisted := make(chan error, 1)
+		batch := index.NewBatch()
+		batch.SetInternal(util.MappingInternalKey, mappingBytes)
+		batch.SetPersistedCallback(func(err error) {
+			persisted <- err
+		})
+		err = rv.i.Batch(batch)
+		if err == nil {
+			err = <-persisted
+		}
+	} else {
+		err = rv.i.SetInternal(util.MappingInternalKey, mappingBytes)
+	}
 	if err != nil {
 		return nil, err
 	}
